@@ -300,9 +300,15 @@ def rule_d(model, rep):
         rep.undecided(R, "<instance-count>", f"only {n} scheme languages examined, expected at least 50")
 
 
+from . import c09 as _c09  # noqa: E402
+from .shared import Renamed as _Renamed  # noqa: E402
+
+
 def run(model, rep):
     rep.explanation = __doc__
     rule_a(model, rep)
     rule_b(model, rep)
     rule_c(model, rep)
     rule_d(model, rep)
+    # unix_disabled.using(marker=...) must store the marker without touching the tables disable()/enable() work from
+    _c09.rule_d(model, _Renamed(rep, {"C09.d": "C18.e-using-sanitised-store"}, "C18.x-"))
